@@ -5,9 +5,9 @@ import json, os
 V = os.path.dirname(os.path.dirname(os.path.abspath(__file__)))
 proj = open(V + '/coq/_CoqProject').read().split()
 T = {
- 'C01': ('control-skeleton invariant (ghost counters L/S/R per state class) proved for every history; reads only in reading states',
+ 'C01': ('control-skeleton invariant (ghost counters: lines terminated / result codes started / completed, per state class) proved for every history from cat_init and, with C03, unconditionally in the supported domain; input requested only in reading states and only when every terminated line has its complete result; drain and lookup exits; whole-line theorems (exact output bytes for a READ line, an unknown line, a WRITE line)',
          'Coq: refinement of Fsm.v to the control skeleton (SkelSim) + invariant J on the skeleton (SkelInv), lifted by induction over the operation list'),
- 'C02': ('lookup sweeps compute Spec.resolve for every table, typed name and flag setting (lane algebra by exhaustive finite sweep, sweeps by induction)',
+ 'C02': ('lookup sweeps compute Spec.resolve for every table, typed name and flag setting (lane algebra by exhaustive finite sweep, sweeps by induction); end to end through io: AT<name><suffix> drives the machine to COMMAND_FOUND with exactly that command and request type within a linear number of calls',
          'Coq: induction over the command table and the typed name; finite forallb sweep lifted with forallb_forall'),
  'C03': ('the fault flag (every checked access of the model) is unreachable for every history in the supported domain; frame lemmas; PARTIAL: about the model\'s index arithmetic, the C object code is tied by the ASan/UBSan correspondence only',
          'Coq: invariant Safe by induction over the operation list'),
@@ -17,7 +17,7 @@ T = {
          'Coq: induction over the text with generalised accumulators'),
  'C06': ('argument collection: handler sees exactly the bytes sent (CR dropped, case kept, NUL-terminated, exact length); length >= capacity rejected; read/test handler arguments',
          'Coq: induction over the received bytes'),
- 'C07': ('per-variable round trip decode(format(v)) = v for all five types and all values; printed text has no delimiter',
+ 'C07': ('per-variable round trip decode(format(v)) = v for all five types and all values; printed text has no delimiter; command level: the READ response text of a variable list, written back through the WRITE path, restores every variable (any number of variables)',
          'Coq: algebraic round-trip lemmas (print_dec/hex inverse, little-endian bytes, escape automaton)'),
  'C08': ('read-only storage unchanged along every history; write-only contents never read by any formatter (non-interference of fmt_var); availability rules',
          'Coq: frame lemmas over all model functions + induction over the operation list'),
